@@ -12,29 +12,40 @@ Theorem triplet_order_irrelevant :
 Proof. intros A zero one add mul sub opp Rth. exact (C07.ProofsAsm.entry_perm zero one add mul sub opp Rth). Qed.
 Print Assumptions triplet_order_irrelevant.
 
-(* update path = fresh assembly for ANY new data, any stored data_order that is a permutation, provided no two
-   triplets share a position (then spsolve's in-place sum_duplicates leaves the cached structure alone).  The cached
-   structure is a function of the positions only (definition of [cached_structure]), so changing loads between
-   reusing calls is covered. *)
+(* update path = fresh assembly: for ANY triplet list (duplicate positions included - they are summed on both paths),
+   ANY new data and ANY stored data_order that is a permutation.  The stored structure ps[ord] is a function of the
+   positions only, so changing loads between reusing calls is covered. *)
 Theorem update_only_correct :
   forall (A : Type) (zero one : A) (add mul sub : A -> A -> A) (opp : A -> A),
   ring_theory zero one add mul sub opp eq ->
   forall (ord : list nat) (ps : list pos) (data' : list A),
-  Permutation ord (seq 0 (length ps)) -> length data' = length ps -> NoDup ps ->
+  Permutation ord (seq 0 (length ps)) -> length data' = length ps ->
   forall p, entry zero add p (update zero ord ps data') = entry zero add p (fresh ps data').
 Proof. intros A zero one add mul sub opp Rth. exact (C07.ProofsAsm.update_only_correct_lemma zero one add mul sub opp Rth). Qed.
 Print Assumptions update_only_correct.
 
-(* without the NoDup guard the statement is false: the update path reads a shifted data array *)
-Theorem update_only_refuted_with_duplicates :
+(* why the structure must be a private copy (behaviour before /repo 33b82f8, model [update_shared]): sharing the cached
+   matrix with spsolve is correct only without duplicate positions ... *)
+Theorem update_shared_correct_without_duplicates :
+  forall (A : Type) (zero one : A) (add mul sub : A -> A -> A) (opp : A -> A),
+  ring_theory zero one add mul sub opp eq ->
+  forall (ord : list nat) (ps : list pos) (data' : list A),
+  Permutation ord (seq 0 (length ps)) -> length data' = length ps -> NoDup ps ->
+  forall p, entry zero add p (update_shared zero ord ps data') = entry zero add p (fresh ps data').
+Proof. intros A zero one add mul sub opp Rth. exact (C07.ProofsAsm.update_shared_nodup_lemma zero one add mul sub opp Rth). Qed.
+Print Assumptions update_shared_correct_without_duplicates.
+
+(* ... and wrong with them (a pressure controller whose controlled junction is its to junction), where today's path is right *)
+Theorem update_shared_refuted_with_duplicates :
   exists (ord : list nat) (ps : list pos) (data' : list Z) (p : pos),
   Permutation ord (seq 0 (length ps)) /\ length data' = length ps /\
-  entry 0%Z Z.add p (update 0%Z ord ps data') <> entry 0%Z Z.add p (fresh ps data').
+  entry 0%Z Z.add p (update_shared 0%Z ord ps data') <> entry 0%Z Z.add p (fresh ps data') /\
+  entry 0%Z Z.add p (update 0%Z ord ps data') = entry 0%Z Z.add p (fresh ps data').
 Proof.
   exists C07.ProofsAsm.w_ord, C07.ProofsAsm.w_ps, C07.ProofsAsm.w_data, (1, 0).
   exact C07.ProofsAsm.update_only_refuted_lemma.
 Qed.
-Print Assumptions update_only_refuted_with_duplicates.
+Print Assumptions update_shared_refuted_with_duplicates.
 
 Example guard_satisfiable :
   NoDup [(2, 2); (2, 0); (2, 1); (0, 2); (1, 2)] /\ Permutation [3; 4; 1; 2; 0] (seq 0 5).
